@@ -133,6 +133,16 @@ func CuratedSpecs() []*StructSpec {
 		f(3, Default, tmap(ts(KString), tref("ValIn", false))).
 		f(4, Optional, tref("ValIn", true)).
 		f(5, Default, tmap(ts(KI64), tlist(tref("ValIn", false)))).holder())
+	// two levels by value: the middle struct has nothing an encoder may leave out, the inner one has
+	// (what one map entry or list element leaves unset must not come from its neighbour)
+	add(newS("ValLeaf").f(1, Optional, ts(KString)).f(2, Optional, tlist(ts(KI32))).f(3, Default, ts(KI32)).f(4, Optional, ts(KI64), "ptr"))
+	add(newS("ValMid").f(1, Required, ts(KI32)).f(2, Default, tref("ValLeaf", false)).f(3, Default, ts(KBool)))
+	add(newS("ValTop").
+		f(1, Default, tmap(ts(KI32), tref("ValMid", false))).
+		f(2, Default, tlist(tref("ValMid", false))).
+		f(3, Default, tmap(ts(KString), tref("ValMid", false))).
+		f(4, Default, tref("ValMid", false)).
+		f(5, Default, tmap(ts(KI64), tmap(ts(KI16), tref("ValMid", false)))))
 	// required ids around presence-set word boundaries, nested in containers
 	add(newS("ReqW").f(63, Required, ts(KI32)).f(64, Required, ts(KString)).f(65, Required, ts(KBool)).
 		f(127, Required, ts(KI8)).f(128, Required, tlist(ts(KI16))).f(1, Optional, ts(KI32), "ptr"))
